@@ -12,7 +12,7 @@ code -> spec     : seeded random graphs (up to ~25 objects) from the same family
 judgement        : spec/Trace_Reduce.tla - TLC evaluates H_Reduce!UnsafeVerdict / FullVerdict on every observation, and
                    (conformance) compares the observation with what the L model predicts for the same graph.
 Python only instantiates, observes and projects."""
-import json, os, pickle, random, re, sys, zlib
+import json, os, pickle, random, re, sys, time, zlib
 from .. import tlc, mbt, tlaval
 from ..common import Verdict, use_repo, SEED, BUILD, ensure_dir
 
@@ -402,13 +402,17 @@ def main(tier, replay=None):
         tlc.require_ok(r, 'Reduce/' + name)
         states += r.distinct
         trans += r.generated
+        t1 = time.time()
         out = mbt.pmap(work, r.dump, {'seed': SEED})
+        t2 = time.time()
         if sum(o['n'] for o in out) != r.distinct:
             raise SystemExit('machinery failure: replayed %d states, TLC found %d' % (sum(o['n'] for o in out), r.distinct))
         recs = [x for o in out for x in o['recs']]
         os.remove(r.dump)
         lines, js = judge(recs, 'C17_j_' + name, fixes)
         jstates += js
+        if os.environ.get('VERIF_C17_TIMING'):
+            print('timing %s: tlc %.1fs, observe %.1fs, judge %.1fs for %d graphs' % (name, r.wall, t2 - t1, time.time() - t2, len(recs)))
         report(v, recs, lines, name, stats)
         ngraphs += len(recs)
         nontriv += sum(1 for x in recs if nontrivial(x))
